@@ -27,7 +27,7 @@ def scratch_run(a, d, meta, meta_p, checks):
         subprocess.check_call(["patch", "-s", "-p1", "-d", tmp, "-i", os.path.join(d, "patch.diff")])
         out = {}
         for c in checks:
-            env = dict(os.environ, VERIF_SEED=a.seed, VERIF_REPO=tmp)
+            env = dict(os.environ, VERIF_SEED=a.seed, VERIF_REPO=tmp, VERIF_EVIDENCE_DIR=os.path.join(tmp, "evidence"), VERIF_REPLAY_DIR=os.path.join(tmp, "replay"))
             p = subprocess.run([os.path.join(ROOT, "check"), c, "--tier", a.tier], stdout=subprocess.PIPE, stderr=subprocess.STDOUT,
                                text=True, env=env, cwd=ROOT)
             keys = [l.split("key=")[1].split(" ")[0] for l in p.stdout.splitlines() if l.startswith("VIOLATION") and "key=" in l]
